@@ -65,9 +65,30 @@ let rec mul n0 m =
 let rec sub n0 m =
   match n0 with
   | O -> n0
-  | S k -> (match m with
-            | O -> n0
-            | S l -> sub k l)
+  | S k0 -> (match m with
+             | O -> n0
+             | S l -> sub k0 l)
+
+(** val divmod : nat -> nat -> nat -> nat -> nat * nat **)
+
+let rec divmod x y q u =
+  match x with
+  | O -> (q, u)
+  | S x' -> (match u with
+             | O -> divmod x' y (S q) y
+             | S u' -> divmod x' y q u')
+
+(** val div : nat -> nat -> nat **)
+
+let div x y = match y with
+| O -> y
+| S y' -> fst (divmod x y' O y')
+
+(** val modulo : nat -> nat -> nat **)
+
+let modulo x = function
+| O -> x
+| S y' -> sub y' (snd (divmod x y' O y'))
 
 (** val eqb : bool -> bool -> bool **)
 
@@ -81,9 +102,9 @@ module Nat =
   let rec sub n0 m =
     match n0 with
     | O -> n0
-    | S k -> (match m with
-              | O -> n0
-              | S l -> sub k l)
+    | S k0 -> (match m with
+               | O -> n0
+               | S l -> sub k0 l)
 
   (** val eqb : nat -> nat -> bool **)
 
@@ -144,11 +165,27 @@ let rec nth n0 l default =
             | [] -> default
             | _ :: t -> nth m t default)
 
+(** val nth_error : 'a1 list -> nat -> 'a1 option **)
+
+let rec nth_error l = function
+| O -> (match l with
+        | [] -> None
+        | x :: _ -> Some x)
+| S n1 -> (match l with
+           | [] -> None
+           | _ :: l0 -> nth_error l0 n1)
+
 (** val rev : 'a1 list -> 'a1 list **)
 
 let rec rev = function
 | [] -> []
 | x :: l' -> app (rev l') (x :: [])
+
+(** val concat : 'a1 list list -> 'a1 list **)
+
+let rec concat = function
+| [] -> []
+| x :: l0 -> app x (concat l0)
 
 (** val map : ('a1 -> 'a2) -> 'a1 list -> 'a2 list **)
 
@@ -156,12 +193,34 @@ let rec map f = function
 | [] -> []
 | a :: t -> (f a) :: (map f t)
 
+(** val flat_map : ('a1 -> 'a2 list) -> 'a1 list -> 'a2 list **)
+
+let rec flat_map f = function
+| [] -> []
+| x :: t -> app (f x) (flat_map f t)
+
 (** val fold_left : ('a1 -> 'a2 -> 'a1) -> 'a2 list -> 'a1 -> 'a1 **)
 
 let rec fold_left f l a0 =
   match l with
   | [] -> a0
   | b :: t -> fold_left f t (f a0 b)
+
+(** val forallb : ('a1 -> bool) -> 'a1 list -> bool **)
+
+let rec forallb f = function
+| [] -> true
+| a :: l0 -> (&&) (f a) (forallb f l0)
+
+(** val combine : 'a1 list -> 'a2 list -> ('a1 * 'a2) list **)
+
+let rec combine l l' =
+  match l with
+  | [] -> []
+  | x :: tl ->
+    (match l' with
+     | [] -> []
+     | y :: tl' -> (x, y) :: (combine tl tl'))
 
 (** val firstn : nat -> 'a1 list -> 'a1 list **)
 
@@ -181,11 +240,17 @@ let rec skipn n0 l =
              | [] -> []
              | _ :: l0 -> skipn n1 l0)
 
+(** val seq : nat -> nat -> nat list **)
+
+let rec seq start = function
+| O -> []
+| S len1 -> start :: (seq (S start) len1)
+
 (** val repeat : 'a1 -> nat -> 'a1 list **)
 
 let rec repeat x = function
 | O -> []
-| S k -> x :: (repeat x k)
+| S k0 -> x :: (repeat x k0)
 
 type positive =
 | XI of positive
@@ -263,6 +328,13 @@ module Coq_Pos =
   | XI p -> XI (XO p)
   | XO p -> XI (pred_double p)
   | XH -> XH
+
+  (** val pred_N : positive -> n **)
+
+  let pred_N = function
+  | XI p -> Npos (XO p)
+  | XO p -> Npos (pred_double p)
+  | XH -> N0
 
   type mask = Pos.mask =
   | IsNul
@@ -399,6 +471,24 @@ module Coq_Pos =
   | N0 -> N0
   | Npos p -> Npos (XO p)
 
+  (** val coq_lor : positive -> positive -> positive **)
+
+  let rec coq_lor p q =
+    match p with
+    | XI p0 ->
+      (match q with
+       | XI q0 -> XI (coq_lor p0 q0)
+       | XO q0 -> XI (coq_lor p0 q0)
+       | XH -> p)
+    | XO p0 ->
+      (match q with
+       | XI q0 -> XI (coq_lor p0 q0)
+       | XO q0 -> XO (coq_lor p0 q0)
+       | XH -> XI p0)
+    | XH -> (match q with
+             | XO q0 -> XI q0
+             | _ -> q)
+
   (** val coq_land : positive -> positive -> n **)
 
   let rec coq_land p q =
@@ -416,6 +506,46 @@ module Coq_Pos =
     | XH -> (match q with
              | XO _ -> N0
              | _ -> Npos XH)
+
+  (** val coq_lxor : positive -> positive -> n **)
+
+  let rec coq_lxor p q =
+    match p with
+    | XI p0 ->
+      (match q with
+       | XI q0 -> coq_Ndouble (coq_lxor p0 q0)
+       | XO q0 -> coq_Nsucc_double (coq_lxor p0 q0)
+       | XH -> Npos (XO p0))
+    | XO p0 ->
+      (match q with
+       | XI q0 -> coq_Nsucc_double (coq_lxor p0 q0)
+       | XO q0 -> coq_Ndouble (coq_lxor p0 q0)
+       | XH -> Npos (XI p0))
+    | XH ->
+      (match q with
+       | XI q0 -> Npos (XO q0)
+       | XO q0 -> Npos (XI q0)
+       | XH -> N0)
+
+  (** val shiftl : positive -> n -> positive **)
+
+  let shiftl p = function
+  | N0 -> p
+  | Npos n1 -> iter (fun x -> XO x) p n1
+
+  (** val testbit : positive -> n -> bool **)
+
+  let rec testbit p n0 =
+    match p with
+    | XI p0 -> (match n0 with
+                | N0 -> true
+                | Npos n1 -> testbit p0 (pred_N n1))
+    | XO p0 -> (match n0 with
+                | N0 -> false
+                | Npos n1 -> testbit p0 (pred_N n1))
+    | XH -> (match n0 with
+             | N0 -> true
+             | Npos _ -> false)
 
   (** val iter_op : ('a1 -> 'a1 -> 'a1) -> positive -> 'a1 -> 'a1 **)
 
@@ -450,6 +580,12 @@ module N =
   let double = function
   | N0 -> N0
   | Npos p -> Npos (XO p)
+
+  (** val succ : n -> n **)
+
+  let succ = function
+  | N0 -> Npos XH
+  | Npos p -> Npos (Coq_Pos.succ p)
 
   (** val add : n -> n -> n **)
 
@@ -493,6 +629,17 @@ module N =
                   | N0 -> Gt
                   | Npos m' -> Coq_Pos.compare n' m')
 
+  (** val eqb : n -> n -> bool **)
+
+  let eqb n0 m =
+    match n0 with
+    | N0 -> (match m with
+             | N0 -> true
+             | Npos _ -> false)
+    | Npos p -> (match m with
+                 | N0 -> false
+                 | Npos q -> Coq_Pos.eqb p q)
+
   (** val leb : n -> n -> bool **)
 
   let leb x y =
@@ -506,6 +653,13 @@ module N =
     match compare x y with
     | Lt -> true
     | _ -> false
+
+  (** val max : n -> n -> n **)
+
+  let max n0 n' =
+    match compare n0 n' with
+    | Gt -> n0
+    | _ -> n'
 
   (** val div2 : n -> n **)
 
@@ -571,10 +725,24 @@ module N =
                   | N0 -> (N0, a)
                   | Npos _ -> pos_div_eucl na b)
 
+  (** val div : n -> n -> n **)
+
+  let div a b =
+    fst (div_eucl a b)
+
   (** val modulo : n -> n -> n **)
 
   let modulo a b =
     snd (div_eucl a b)
+
+  (** val coq_lor : n -> n -> n **)
+
+  let coq_lor n0 m =
+    match n0 with
+    | N0 -> m
+    | Npos p -> (match m with
+                 | N0 -> n0
+                 | Npos q -> Npos (Coq_Pos.coq_lor p q))
 
   (** val coq_land : n -> n -> n **)
 
@@ -585,11 +753,34 @@ module N =
                  | N0 -> N0
                  | Npos q -> Coq_Pos.coq_land p q)
 
+  (** val coq_lxor : n -> n -> n **)
+
+  let coq_lxor n0 m =
+    match n0 with
+    | N0 -> m
+    | Npos p -> (match m with
+                 | N0 -> n0
+                 | Npos q -> Coq_Pos.coq_lxor p q)
+
+  (** val shiftl : n -> n -> n **)
+
+  let shiftl a n0 =
+    match a with
+    | N0 -> N0
+    | Npos a0 -> Npos (Coq_Pos.shiftl a0 n0)
+
   (** val shiftr : n -> n -> n **)
 
   let shiftr a = function
   | N0 -> a
   | Npos p -> Coq_Pos.iter div2 a p
+
+  (** val testbit : n -> n -> bool **)
+
+  let testbit a n0 =
+    match a with
+    | N0 -> false
+    | Npos p -> Coq_Pos.testbit p n0
 
   (** val to_nat : n -> nat **)
 
@@ -956,6 +1147,14 @@ type 'a res =
 | Err of n
 | Panic of n
 
+(** val bind : 'a1 res -> ('a1 -> 'a2 res) -> 'a2 res **)
+
+let bind r f =
+  match r with
+  | Ok a -> f a
+  | Err e -> Err e
+  | Panic p -> Panic p
+
 (** val eNotEnoughBits : n **)
 
 let eNotEnoughBits =
@@ -995,6 +1194,11 @@ let pIndex =
 
 let pSlice =
   Npos (XO XH)
+
+(** val pNil : n **)
+
+let pNil =
+  Npos (XO (XO XH))
 
 (** val pShift : n **)
 
@@ -1217,11 +1421,11 @@ let skip n0 s =
 
 (** val load_be : nat -> nat -> bs -> n **)
 
-let load_be k c s =
+let load_be k0 c s =
   n_of_bits
-    (firstn (mul (S (S (S (S (S (S (S (S O)))))))) k)
+    (firstn (mul (S (S (S (S (S (S (S (S O)))))))) k0)
       (app (skipn (mul (S (S (S (S (S (S (S (S O)))))))) c) s.buf)
-        (zeros (mul (S (S (S (S (S (S (S (S O)))))))) k))))
+        (zeros (mul (S (S (S (S (S (S (S (S O)))))))) k0))))
 
 (** val set_rcur : bs -> nat -> bs **)
 
@@ -1430,8 +1634,9 @@ let read_big_uint w s =
   then (s, (Err eNotEnoughBits))
   else if Nat.eqb w O
        then (s, (Ok N0))
-       else let k = Nat.modulo w (S (S (S (S (S (S (S (S O)))))))) in
-            let first = if Nat.eqb k O then (s, (Ok N0)) else read_uint k s in
+       else let k0 = Nat.modulo w (S (S (S (S (S (S (S (S O)))))))) in
+            let first = if Nat.eqb k0 O then (s, (Ok N0)) else read_uint k0 s
+            in
             let (s1, r) = first in
             (match r with
              | Ok hi ->
@@ -1439,7 +1644,7 @@ let read_big_uint w s =
                  read_bytes (Nat.div w (S (S (S (S (S (S (S (S O))))))))) s1
                in
                (match r0 with
-                | Ok bytes ->
+                | Ok bytes0 ->
                   (s2, (Ok
                     (N.add
                       (N.mul hi
@@ -1447,7 +1652,7 @@ let read_big_uint w s =
                           (N.of_nat
                             (mul (S (S (S (S (S (S (S (S O))))))))
                               (Nat.div w (S (S (S (S (S (S (S (S O)))))))))))))
-                      (n_of_bits (bytes_bits bytes)))))
+                      (n_of_bits (bytes_bits bytes0)))))
                 | Err e -> (s2, (Err e))
                 | Panic p -> (s2, (Panic p)))
              | x -> (s1, x))
@@ -1548,12 +1753,12 @@ let rec nibbles fuel l =
 let to_fift l =
   if Nat.eqb (Nat.modulo (length l) (S (S (S (S O))))) O
   then ((nibbles (length l) l), false)
-  else let pad =
+  else let pad0 =
          sub
            (sub (S (S (S (S O)))) (Nat.modulo (length l) (S (S (S (S O))))))
            (S O)
        in
-       ((nibbles (S (length l)) (app l (true :: (zeros pad)))), true)
+       ((nibbles (S (length l)) (app l (true :: (zeros pad0)))), true)
 
 (** val strip_tag : n -> bits option **)
 
@@ -2666,6 +2871,1272 @@ let run_minbits = function
     false)), (String ((Ascii (true, true, false, false, true, true, true,
     false)), EmptyString))))))))))))))
 
+(** val m32 : n **)
+
+let m32 =
+  Npos (XI (XI (XI (XI (XI (XI (XI (XI (XI (XI (XI (XI (XI (XI (XI (XI (XI
+    (XI (XI (XI (XI (XI (XI (XI (XI (XI (XI (XI (XI (XI (XI
+    XH)))))))))))))))))))))))))))))))
+
+(** val add32 : n -> n -> n **)
+
+let add32 a b =
+  N.coq_land (N.add a b) m32
+
+(** val rotr : n -> n -> n **)
+
+let rotr x n0 =
+  N.coq_lor (N.shiftr x n0)
+    (N.coq_land (N.shiftl x (N.sub (Npos (XO (XO (XO (XO (XO XH)))))) n0))
+      m32)
+
+(** val not32 : n -> n **)
+
+let not32 x =
+  N.coq_lxor x m32
+
+(** val ch : n -> n -> n -> n **)
+
+let ch x y z0 =
+  N.coq_lxor (N.coq_land x y) (N.coq_land (not32 x) z0)
+
+(** val maj : n -> n -> n -> n **)
+
+let maj x y z0 =
+  N.coq_lxor (N.coq_lxor (N.coq_land x y) (N.coq_land x z0)) (N.coq_land y z0)
+
+(** val bsig0 : n -> n **)
+
+let bsig0 x =
+  N.coq_lxor
+    (N.coq_lxor (rotr x (Npos (XO XH))) (rotr x (Npos (XI (XO (XI XH))))))
+    (rotr x (Npos (XO (XI (XI (XO XH))))))
+
+(** val bsig1 : n -> n **)
+
+let bsig1 x =
+  N.coq_lxor
+    (N.coq_lxor (rotr x (Npos (XO (XI XH))))
+      (rotr x (Npos (XI (XI (XO XH))))))
+    (rotr x (Npos (XI (XO (XO (XI XH))))))
+
+(** val ssig0 : n -> n **)
+
+let ssig0 x =
+  N.coq_lxor
+    (N.coq_lxor (rotr x (Npos (XI (XI XH))))
+      (rotr x (Npos (XO (XI (XO (XO XH))))))) (N.shiftr x (Npos (XI XH)))
+
+(** val ssig1 : n -> n **)
+
+let ssig1 x =
+  N.coq_lxor
+    (N.coq_lxor (rotr x (Npos (XI (XO (XO (XO XH))))))
+      (rotr x (Npos (XI (XI (XO (XO XH)))))))
+    (N.shiftr x (Npos (XO (XI (XO XH)))))
+
+(** val k : n list **)
+
+let k =
+  (Npos (XO (XO (XO (XI (XI (XO (XO (XI (XI (XI (XI (XI (XO (XI (XO (XO (XO
+    (XI (XO (XI (XO (XO (XO (XI (XO (XI (XO (XO (XO (XO
+    XH))))))))))))))))))))))))))))))) :: ((Npos (XI (XO (XO (XO (XI (XO (XO
+    (XI (XO (XO (XI (XO (XO (XO (XI (XO (XI (XI (XI (XO (XI (XI (XO (XO (XI
+    (XO (XO (XO (XI (XI XH))))))))))))))))))))))))))))))) :: ((Npos (XI (XI
+    (XI (XI (XO (XO (XI (XI (XI (XI (XO (XI (XI (XI (XI (XI (XO (XO (XO (XO
+    (XO (XO (XI (XI (XI (XO (XI (XO (XI (XI (XO
+    XH)))))))))))))))))))))))))))))))) :: ((Npos (XI (XO (XI (XO (XO (XI (XO
+    (XI (XI (XI (XO (XI (XI (XO (XI (XI (XI (XO (XI (XO (XI (XI (XO (XI (XI
+    (XO (XO (XI (XO (XI (XI XH)))))))))))))))))))))))))))))))) :: ((Npos (XI
+    (XI (XO (XI (XI (XO (XI (XO (XO (XI (XO (XO (XO (XO (XI (XI (XO (XI (XI
+    (XO (XI (XO (XI (XO (XI (XO (XO (XI (XI
+    XH)))))))))))))))))))))))))))))) :: ((Npos (XI (XO (XO (XO (XI (XI (XI
+    (XI (XI (XO (XO (XO (XI (XO (XO (XO (XI (XO (XO (XO (XI (XI (XI (XI (XI
+    (XO (XO (XI (XI (XO XH))))))))))))))))))))))))))))))) :: ((Npos (XO (XO
+    (XI (XO (XO (XI (XO (XI (XO (XI (XO (XO (XO (XO (XO (XI (XI (XI (XI (XI
+    (XI (XI (XO (XO (XO (XI (XO (XO (XI (XO (XO
+    XH)))))))))))))))))))))))))))))))) :: ((Npos (XI (XO (XI (XO (XI (XO (XI
+    (XI (XO (XI (XI (XI (XI (XO (XI (XO (XO (XO (XI (XI (XI (XO (XO (XO (XI
+    (XI (XO (XI (XO (XI (XO XH)))))))))))))))))))))))))))))))) :: ((Npos (XO
+    (XO (XO (XI (XI (XO (XO (XI (XO (XI (XO (XI (XO (XI (XO (XI (XI (XI (XI
+    (XO (XO (XO (XO (XO (XO (XO (XO (XI (XI (XO (XI
+    XH)))))))))))))))))))))))))))))))) :: ((Npos (XI (XO (XO (XO (XO (XO (XO
+    (XO (XI (XI (XO (XI (XI (XO (XI (XO (XI (XI (XO (XO (XO (XO (XO (XI (XO
+    (XI (XO (XO XH))))))))))))))))))))))))))))) :: ((Npos (XO (XI (XI (XI (XI
+    (XI (XO (XI (XI (XO (XI (XO (XO (XO (XO (XI (XI (XO (XO (XO (XI (XI (XO
+    (XO (XO (XO (XI (XO (XO XH)))))))))))))))))))))))))))))) :: ((Npos (XI
+    (XI (XO (XO (XO (XO (XI (XI (XI (XO (XI (XI (XI (XI (XI (XO (XO (XO (XI
+    (XI (XO (XO (XO (XO (XI (XO (XI (XO (XI (XO
+    XH))))))))))))))))))))))))))))))) :: ((Npos (XO (XO (XI (XO (XI (XI (XI
+    (XO (XI (XO (XI (XI (XI (XO (XI (XO (XO (XI (XI (XI (XI (XI (XO (XI (XO
+    (XI (XO (XO (XI (XI XH))))))))))))))))))))))))))))))) :: ((Npos (XO (XI
+    (XI (XI (XI (XI (XI (XI (XI (XO (XO (XO (XI (XI (XO (XI (XO (XI (XI (XI
+    (XI (XO (XI (XI (XO (XO (XO (XO (XO (XO (XO
+    XH)))))))))))))))))))))))))))))))) :: ((Npos (XI (XI (XI (XO (XO (XI (XO
+    (XI (XO (XI (XI (XO (XO (XO (XO (XO (XO (XO (XI (XI (XI (XO (XI (XI (XI
+    (XI (XO (XI (XI (XO (XO XH)))))))))))))))))))))))))))))))) :: ((Npos (XO
+    (XO (XI (XO (XI (XI (XI (XO (XI (XO (XO (XO (XI (XI (XI (XI (XI (XI (XO
+    (XI (XI (XO (XO (XI (XI (XO (XO (XO (XO (XO (XI
+    XH)))))))))))))))))))))))))))))))) :: ((Npos (XI (XO (XO (XO (XO (XO (XI
+    (XI (XI (XO (XO (XI (XO (XI (XI (XO (XI (XI (XO (XI (XI (XO (XO (XI (XO
+    (XO (XI (XO (XO (XI (XI XH)))))))))))))))))))))))))))))))) :: ((Npos (XO
+    (XI (XI (XO (XO (XO (XO (XI (XI (XI (XI (XO (XO (XO (XI (XO (XO (XI (XI
+    (XI (XI (XI (XO (XI (XI (XI (XI (XI (XO (XI (XI
+    XH)))))))))))))))))))))))))))))))) :: ((Npos (XO (XI (XI (XO (XO (XO (XI
+    (XI (XI (XO (XI (XI (XI (XO (XO (XI (XI (XO (XO (XO (XO (XO (XI (XI (XI
+    (XI (XI XH)))))))))))))))))))))))))))) :: ((Npos (XO (XO (XI (XI (XO (XO
+    (XI (XI (XI (XO (XO (XO (XO (XI (XO (XI (XO (XO (XI (XI (XO (XO (XO (XO
+    (XO (XO (XI (XO (XO XH)))))))))))))))))))))))))))))) :: ((Npos (XI (XI
+    (XI (XI (XO (XI (XI (XO (XO (XO (XI (XI (XO (XI (XO (XO (XI (XO (XO (XI
+    (XO (XI (XI (XI (XI (XO (XI (XI (XO
+    XH)))))))))))))))))))))))))))))) :: ((Npos (XO (XI (XO (XI (XO (XI (XO
+    (XI (XO (XO (XI (XO (XO (XO (XO (XI (XO (XO (XI (XO (XI (XI (XI (XO (XO
+    (XI (XO (XI (XO (XO XH))))))))))))))))))))))))))))))) :: ((Npos (XO (XO
+    (XI (XI (XI (XO (XI (XI (XI (XO (XO (XI (XO (XI (XO (XI (XO (XO (XO (XO
+    (XI (XI (XO (XI (XO (XO (XI (XI (XI (XO
+    XH))))))))))))))))))))))))))))))) :: ((Npos (XO (XI (XO (XI (XI (XO (XI
+    (XI (XO (XO (XO (XI (XO (XO (XO (XI (XI (XO (XO (XI (XI (XI (XI (XI (XO
+    (XI (XI (XO (XI (XI XH))))))))))))))))))))))))))))))) :: ((Npos (XO (XI
+    (XO (XO (XI (XO (XI (XO (XI (XO (XO (XO (XI (XO (XI (XO (XO (XI (XI (XI
+    (XI (XI (XO (XO (XO (XO (XO (XI (XI (XO (XO
+    XH)))))))))))))))))))))))))))))))) :: ((Npos (XI (XO (XI (XI (XO (XI (XI
+    (XO (XO (XI (XI (XO (XO (XO (XI (XI (XI (XO (XO (XO (XI (XI (XO (XO (XO
+    (XO (XO (XI (XO (XI (XO XH)))))))))))))))))))))))))))))))) :: ((Npos (XO
+    (XO (XO (XI (XO (XO (XI (XI (XI (XI (XI (XO (XO (XI (XO (XO (XI (XI (XO
+    (XO (XO (XO (XO (XO (XO (XO (XO (XO (XI (XI (XO
+    XH)))))))))))))))))))))))))))))))) :: ((Npos (XI (XI (XI (XO (XO (XO (XI
+    (XI (XI (XI (XI (XI (XI (XI (XI (XO (XI (XO (XO (XI (XI (XO (XI (XO (XI
+    (XI (XI (XI (XI (XI (XO XH)))))))))))))))))))))))))))))))) :: ((Npos (XI
+    (XI (XO (XO (XI (XI (XI (XI (XI (XI (XO (XI (XO (XO (XO (XO (XO (XO (XO
+    (XO (XO (XI (XI (XI (XO (XI (XI (XO (XO (XO (XI
+    XH)))))))))))))))))))))))))))))))) :: ((Npos (XI (XI (XI (XO (XO (XO (XI
+    (XO (XI (XO (XO (XO (XI (XO (XO (XI (XI (XI (XI (XO (XO (XI (XO (XI (XI
+    (XO (XI (XO (XI (XO (XI XH)))))))))))))))))))))))))))))))) :: ((Npos (XI
+    (XO (XO (XO (XI (XO (XI (XO (XI (XI (XO (XO (XO (XI (XI (XO (XO (XI (XO
+    (XI (XO (XO (XI (XI (XO (XI XH))))))))))))))))))))))))))) :: ((Npos (XI
+    (XI (XI (XO (XO (XI (XI (XO (XI (XO (XO (XI (XO (XI (XO (XO (XI (XO (XO
+    (XI (XO (XI (XO (XO (XO (XO (XI (XO
+    XH))))))))))))))))))))))))))))) :: ((Npos (XI (XO (XI (XO (XO (XO (XO (XI
+    (XO (XI (XO (XI (XO (XO (XO (XO (XI (XI (XI (XO (XI (XI (XO (XI (XI (XI
+    (XI (XO (XO XH)))))))))))))))))))))))))))))) :: ((Npos (XO (XO (XO (XI
+    (XI (XI (XO (XO (XI (XO (XO (XO (XO (XI (XO (XO (XI (XI (XO (XI (XI (XO
+    (XO (XO (XO (XI (XI (XI (XO XH)))))))))))))))))))))))))))))) :: ((Npos
+    (XO (XO (XI (XI (XI (XI (XI (XI (XI (XO (XI (XI (XO (XI (XI (XO (XO (XO
+    (XI (XI (XO (XI (XO (XO (XI (XO (XI (XI (XO (XO
+    XH))))))))))))))))))))))))))))))) :: ((Npos (XI (XI (XO (XO (XI (XO (XO
+    (XO (XI (XO (XI (XI (XO (XO (XO (XO (XO (XO (XO (XI (XI (XI (XO (XO (XI
+    (XI (XO (XO (XI (XO XH))))))))))))))))))))))))))))))) :: ((Npos (XO (XO
+    (XI (XO (XI (XO (XI (XO (XI (XI (XO (XO (XI (XI (XI (XO (XO (XI (XO (XI
+    (XO (XO (XO (XO (XI (XO (XI (XO (XO (XI
+    XH))))))))))))))))))))))))))))))) :: ((Npos (XI (XI (XO (XI (XI (XI (XO
+    (XI (XO (XI (XO (XI (XO (XO (XO (XO (XO (XI (XO (XI (XO (XI (XI (XO (XO
+    (XI (XI (XO (XI (XI XH))))))))))))))))))))))))))))))) :: ((Npos (XO (XI
+    (XI (XI (XO (XI (XO (XO (XI (XO (XO (XI (XO (XO (XI (XI (XO (XI (XO (XO
+    (XO (XO (XI (XI (XI (XO (XO (XO (XO (XO (XO
+    XH)))))))))))))))))))))))))))))))) :: ((Npos (XI (XO (XI (XO (XO (XO (XO
+    (XI (XO (XO (XI (XI (XO (XI (XO (XO (XO (XI (XO (XO (XI (XI (XI (XO (XO
+    (XI (XO (XO (XI (XO (XO XH)))))))))))))))))))))))))))))))) :: ((Npos (XI
+    (XO (XO (XO (XO (XI (XO (XI (XO (XO (XO (XI (XO (XI (XI (XI (XI (XI (XI
+    (XI (XI (XI (XO (XI (XO (XI (XO (XO (XO (XI (XO
+    XH)))))))))))))))))))))))))))))))) :: ((Npos (XI (XI (XO (XI (XO (XO (XI
+    (XO (XO (XI (XI (XO (XO (XI (XI (XO (XO (XI (XO (XI (XI (XO (XO (XO (XO
+    (XO (XO (XI (XO (XI (XO XH)))))))))))))))))))))))))))))))) :: ((Npos (XO
+    (XO (XO (XO (XI (XI (XI (XO (XI (XI (XO (XI (XO (XO (XO (XI (XI (XI (XO
+    (XI (XO (XO (XI (XO (XO (XI (XO (XO (XO (XO (XI
+    XH)))))))))))))))))))))))))))))))) :: ((Npos (XI (XI (XO (XO (XO (XI (XO
+    (XI (XI (XO (XO (XO (XI (XO (XI (XO (XO (XO (XI (XI (XO (XI (XI (XO (XI
+    (XI (XI (XO (XO (XO (XI XH)))))))))))))))))))))))))))))))) :: ((Npos (XI
+    (XO (XO (XI (XI (XO (XO (XO (XO (XO (XO (XI (XO (XI (XI (XI (XO (XI (XO
+    (XO (XI (XO (XO (XI (XI (XO (XO (XO (XI (XO (XI
+    XH)))))))))))))))))))))))))))))))) :: ((Npos (XO (XO (XI (XO (XO (XI (XO
+    (XO (XO (XI (XI (XO (XO (XO (XO (XO (XI (XO (XO (XI (XI (XO (XO (XI (XO
+    (XI (XI (XO (XI (XO (XI XH)))))))))))))))))))))))))))))))) :: ((Npos (XI
+    (XO (XI (XO (XO (XO (XO (XI (XI (XO (XI (XO (XI (XI (XO (XO (XO (XI (XI
+    (XI (XO (XO (XO (XO (XO (XO (XI (XO (XI (XI (XI
+    XH)))))))))))))))))))))))))))))))) :: ((Npos (XO (XO (XO (XO (XI (XI (XI
+    (XO (XO (XO (XO (XO (XO (XI (XO (XI (XO (XI (XO (XI (XO (XI (XI (XO (XO
+    (XO (XO (XO XH))))))))))))))))))))))))))))) :: ((Npos (XO (XI (XI (XO (XI
+    (XO (XO (XO (XI (XO (XO (XO (XO (XO (XI (XI (XO (XO (XI (XO (XO (XI (XO
+    (XI (XI (XO (XO (XI XH))))))))))))))))))))))))))))) :: ((Npos (XO (XO (XO
+    (XI (XO (XO (XO (XO (XO (XO (XI (XI (XO (XI (XI (XO (XI (XI (XI (XO (XI
+    (XI (XO (XO (XO (XI (XI (XI XH))))))))))))))))))))))))))))) :: ((Npos (XO
+    (XO (XI (XI (XO (XO (XI (XO (XI (XI (XI (XO (XI (XI (XI (XO (XO (XO (XO
+    (XI (XO (XO (XI (XO (XI (XI (XI (XO (XO
+    XH)))))))))))))))))))))))))))))) :: ((Npos (XI (XO (XI (XO (XI (XI (XO
+    (XI (XO (XO (XI (XI (XI (XI (XO (XI (XO (XO (XO (XO (XI (XI (XO (XI (XO
+    (XO (XI (XO (XI XH)))))))))))))))))))))))))))))) :: ((Npos (XI (XI (XO
+    (XO (XI (XI (XO (XI (XO (XO (XI (XI (XO (XO (XO (XO (XO (XO (XI (XI (XI
+    (XO (XO (XO (XI (XO (XO (XI (XI
+    XH)))))))))))))))))))))))))))))) :: ((Npos (XO (XI (XO (XI (XO (XO (XI
+    (XO (XO (XI (XO (XI (XO (XI (XO (XI (XO (XO (XO (XI (XI (XO (XI (XI (XO
+    (XI (XI (XI (XO (XO XH))))))))))))))))))))))))))))))) :: ((Npos (XI (XI
+    (XI (XI (XO (XO (XI (XO (XO (XI (XO (XI (XO (XO (XI (XI (XO (XO (XI (XI
+    (XI (XO (XO (XI (XI (XI (XO (XI (XI (XO
+    XH))))))))))))))))))))))))))))))) :: ((Npos (XI (XI (XO (XO (XI (XI (XI
+    (XI (XI (XI (XI (XI (XO (XI (XI (XO (XO (XI (XI (XI (XO (XI (XO (XO (XO
+    (XO (XO (XI (XO (XI XH))))))))))))))))))))))))))))))) :: ((Npos (XO (XI
+    (XI (XI (XO (XI (XI (XI (XO (XI (XO (XO (XO (XO (XO (XI (XI (XI (XI (XI
+    (XO (XO (XO (XI (XO (XO (XI (XO (XI (XI
+    XH))))))))))))))))))))))))))))))) :: ((Npos (XI (XI (XI (XI (XO (XI (XI
+    (XO (XI (XI (XO (XO (XO (XI (XI (XO (XI (XO (XI (XO (XO (XI (XO (XI (XO
+    (XO (XO (XI (XI (XI XH))))))))))))))))))))))))))))))) :: ((Npos (XO (XO
+    (XI (XO (XI (XO (XO (XO (XO (XO (XO (XI (XI (XI (XI (XO (XO (XO (XO (XI
+    (XO (XO (XI (XI (XO (XO (XI (XO (XO (XO (XO
+    XH)))))))))))))))))))))))))))))))) :: ((Npos (XO (XO (XO (XI (XO (XO (XO
+    (XO (XO (XI (XO (XO (XO (XO (XO (XO (XI (XI (XI (XO (XO (XO (XI (XI (XO
+    (XO (XI (XI (XO (XO (XO XH)))))))))))))))))))))))))))))))) :: ((Npos (XO
+    (XI (XO (XI (XI (XI (XI (XI (XI (XI (XI (XI (XI (XI (XI (XI (XO (XI (XI
+    (XI (XI (XI (XO (XI (XO (XO (XO (XO (XI (XO (XO
+    XH)))))))))))))))))))))))))))))))) :: ((Npos (XI (XI (XO (XI (XO (XI (XI
+    (XI (XO (XO (XI (XI (XO (XI (XI (XO (XO (XO (XO (XO (XI (XO (XI (XO (XO
+    (XO (XI (XO (XO (XI (XO XH)))))))))))))))))))))))))))))))) :: ((Npos (XI
+    (XI (XI (XO (XI (XI (XI (XI (XI (XI (XO (XO (XO (XI (XO (XI (XI (XO (XO
+    (XI (XI (XI (XI (XI (XO (XI (XI (XI (XI (XI (XO
+    XH)))))))))))))))))))))))))))))))) :: ((Npos (XO (XI (XO (XO (XI (XI (XI
+    (XI (XO (XO (XO (XI (XI (XI (XI (XO (XI (XO (XO (XO (XI (XI (XI (XO (XO
+    (XI (XI (XO (XO (XO (XI
+    XH)))))))))))))))))))))))))))))))) :: [])))))))))))))))))))))))))))))))))))))))))))))))))))))))))))))))
+
+(** val h0 : n list **)
+
+let h0 =
+  (Npos (XI (XI (XI (XO (XO (XI (XI (XO (XO (XI (XI (XO (XO (XI (XI (XI (XI
+    (XO (XO (XI (XO (XO (XO (XO (XO (XI (XO (XI (XO (XI
+    XH))))))))))))))))))))))))))))))) :: ((Npos (XI (XO (XI (XO (XO (XO (XO
+    (XI (XO (XI (XI (XI (XO (XI (XO (XI (XI (XI (XI (XO (XO (XI (XI (XO (XI
+    (XI (XO (XI (XI (XI (XO XH)))))))))))))))))))))))))))))))) :: ((Npos (XO
+    (XI (XO (XO (XI (XI (XI (XO (XI (XI (XO (XO (XI (XI (XI (XI (XO (XI (XI
+    (XI (XO (XI (XI (XO (XO (XO (XI (XI (XI
+    XH)))))))))))))))))))))))))))))) :: ((Npos (XO (XI (XO (XI (XI (XI (XO
+    (XO (XI (XO (XI (XO (XI (XI (XI (XI (XI (XI (XI (XI (XO (XO (XI (XO (XI
+    (XO (XI (XO (XO (XI (XO XH)))))))))))))))))))))))))))))))) :: ((Npos (XI
+    (XI (XI (XI (XI (XI (XI (XO (XO (XI (XO (XO (XI (XO (XI (XO (XO (XI (XI
+    (XI (XO (XO (XO (XO (XI (XO (XO (XO (XI (XO
+    XH))))))))))))))))))))))))))))))) :: ((Npos (XO (XO (XI (XI (XO (XO (XO
+    (XI (XO (XO (XO (XI (XO (XI (XI (XO (XI (XO (XI (XO (XO (XO (XO (XO (XI
+    (XI (XO (XI (XI (XO (XO XH)))))))))))))))))))))))))))))))) :: ((Npos (XI
+    (XI (XO (XI (XO (XI (XO (XI (XI (XO (XO (XI (XI (XO (XI (XI (XI (XI (XO
+    (XO (XO (XO (XO (XI (XI (XI (XI (XI
+    XH))))))))))))))))))))))))))))) :: ((Npos (XI (XO (XO (XI (XI (XO (XO (XO
+    (XI (XO (XI (XI (XO (XO (XI (XI (XO (XO (XO (XO (XO (XI (XI (XI (XI (XI
+    (XO (XI (XI (XO XH))))))))))))))))))))))))))))))) :: [])))))))
+
+(** val next_w : n list -> n **)
+
+let next_w = function
+| [] -> N0
+| _ :: l ->
+  (match l with
+   | [] -> N0
+   | w2 :: l0 ->
+     (match l0 with
+      | [] -> N0
+      | _ :: l1 ->
+        (match l1 with
+         | [] -> N0
+         | _ :: l2 ->
+           (match l2 with
+            | [] -> N0
+            | _ :: l3 ->
+              (match l3 with
+               | [] -> N0
+               | _ :: l4 ->
+                 (match l4 with
+                  | [] -> N0
+                  | w7 :: l5 ->
+                    (match l5 with
+                     | [] -> N0
+                     | _ :: l6 ->
+                       (match l6 with
+                        | [] -> N0
+                        | _ :: l7 ->
+                          (match l7 with
+                           | [] -> N0
+                           | _ :: l8 ->
+                             (match l8 with
+                              | [] -> N0
+                              | _ :: l9 ->
+                                (match l9 with
+                                 | [] -> N0
+                                 | _ :: l10 ->
+                                   (match l10 with
+                                    | [] -> N0
+                                    | _ :: l11 ->
+                                      (match l11 with
+                                       | [] -> N0
+                                       | _ :: l12 ->
+                                         (match l12 with
+                                          | [] -> N0
+                                          | w15 :: l13 ->
+                                            (match l13 with
+                                             | [] -> N0
+                                             | w16 :: _ ->
+                                               add32 (add32 (ssig1 w2) w7)
+                                                 (add32 (ssig0 w15) w16))))))))))))))))
+
+(** val round : n list -> n -> n -> n list **)
+
+let round st k0 w =
+  match st with
+  | [] -> st
+  | a :: l ->
+    (match l with
+     | [] -> st
+     | b :: l0 ->
+       (match l0 with
+        | [] -> st
+        | c :: l1 ->
+          (match l1 with
+           | [] -> st
+           | d :: l2 ->
+             (match l2 with
+              | [] -> st
+              | e :: l3 ->
+                (match l3 with
+                 | [] -> st
+                 | f :: l4 ->
+                   (match l4 with
+                    | [] -> st
+                    | g :: l5 ->
+                      (match l5 with
+                       | [] -> st
+                       | h :: l6 ->
+                         (match l6 with
+                          | [] ->
+                            let t1 =
+                              add32
+                                (add32 (add32 h (bsig1 e))
+                                  (add32 (ch e f g) k0)) w
+                            in
+                            let t2 = add32 (bsig0 a) (maj a b c) in
+                            (add32 t1 t2) :: (a :: (b :: (c :: ((add32 d t1) :: (e :: (f :: (g :: [])))))))
+                          | _ :: _ -> st))))))))
+
+(** val rounds16 :
+    n list -> n list -> n list -> n list -> (n list * n list) * n list **)
+
+let rec rounds16 st ks ws hist =
+  match ws with
+  | [] -> ((st, ks), hist)
+  | w :: ws' ->
+    (match ks with
+     | [] -> ((st, ks), hist)
+     | k0 :: ks' -> rounds16 (round st k0 w) ks' ws' (w :: hist))
+
+(** val rounds48 : n list -> n list -> n list -> n list **)
+
+let rec rounds48 st ks hist =
+  match ks with
+  | [] -> st
+  | k0 :: ks' ->
+    let w = next_w hist in
+    rounds48 (round st k0 w) ks'
+      (w :: (firstn (S (S (S (S (S (S (S (S (S (S (S (S (S (S (S
+              O))))))))))))))) hist))
+
+(** val compress : n list -> n list -> n list **)
+
+let compress h block =
+  let (p, hist) = rounds16 h k block [] in
+  let (st, ks) = p in
+  let st' = rounds48 st ks hist in
+  map (fun p0 -> add32 (fst p0) (snd p0)) (combine h st')
+
+(** val words_of_bytes : n list -> n list **)
+
+let rec words_of_bytes = function
+| [] -> []
+| a :: l0 ->
+  (match l0 with
+   | [] -> []
+   | b :: l1 ->
+     (match l1 with
+      | [] -> []
+      | c :: l2 ->
+        (match l2 with
+         | [] -> []
+         | d :: t ->
+           (N.add
+             (N.add
+               (N.add
+                 (N.mul a (Npos (XO (XO (XO (XO (XO (XO (XO (XO (XO (XO (XO
+                   (XO (XO (XO (XO (XO (XO (XO (XO (XO (XO (XO (XO (XO
+                   XH))))))))))))))))))))))))))
+                 (N.mul b (Npos (XO (XO (XO (XO (XO (XO (XO (XO (XO (XO (XO
+                   (XO (XO (XO (XO (XO XH)))))))))))))))))))
+               (N.mul c (Npos (XO (XO (XO (XO (XO (XO (XO (XO XH))))))))))) d) :: 
+             (words_of_bytes t))))
+
+(** val blocks : nat -> n list -> n list -> n list **)
+
+let rec blocks fuel h ws =
+  match fuel with
+  | O -> h
+  | S f ->
+    (match ws with
+     | [] -> h
+     | _ :: _ ->
+       blocks f
+         (compress h
+           (firstn (S (S (S (S (S (S (S (S (S (S (S (S (S (S (S (S
+             O)))))))))))))))) ws))
+         (skipn (S (S (S (S (S (S (S (S (S (S (S (S (S (S (S (S
+           O)))))))))))))))) ws))
+
+(** val be_bytes : nat -> n -> n list **)
+
+let be_bytes n0 v =
+  rev
+    (map (fun i ->
+      N.coq_land (N.shiftr v (N.mul (Npos (XO (XO (XO XH)))) (N.of_nat i)))
+        (Npos (XI (XI (XI (XI (XI (XI (XI XH))))))))) (seq O n0))
+
+(** val pad : nat -> n list **)
+
+let pad len0 =
+  let zeros0 =
+    modulo
+      (sub (S (S (S (S (S (S (S (S (S (S (S (S (S (S (S (S (S (S (S (S (S (S
+        (S (S (S (S (S (S (S (S (S (S (S (S (S (S (S (S (S (S (S (S (S (S (S
+        (S (S (S (S (S (S (S (S (S (S (S (S (S (S (S (S (S (S (S (S (S (S (S
+        (S (S (S (S (S (S (S (S (S (S (S (S (S (S (S (S (S (S (S (S (S (S (S
+        (S (S (S (S (S (S (S (S (S (S (S (S (S (S (S (S (S (S (S (S (S (S (S
+        (S (S (S (S (S
+        O)))))))))))))))))))))))))))))))))))))))))))))))))))))))))))))))))))))))))))))))))))))))))))))))))))))))))))))))))))))))
+        (modulo len0 (S (S (S (S (S (S (S (S (S (S (S (S (S (S (S (S (S (S (S
+          (S (S (S (S (S (S (S (S (S (S (S (S (S (S (S (S (S (S (S (S (S (S
+          (S (S (S (S (S (S (S (S (S (S (S (S (S (S (S (S (S (S (S (S (S (S
+          (S
+          O))))))))))))))))))))))))))))))))))))))))))))))))))))))))))))))))))
+      (S (S (S (S (S (S (S (S (S (S (S (S (S (S (S (S (S (S (S (S (S (S (S (S
+      (S (S (S (S (S (S (S (S (S (S (S (S (S (S (S (S (S (S (S (S (S (S (S (S
+      (S (S (S (S (S (S (S (S (S (S (S (S (S (S (S (S
+      O))))))))))))))))))))))))))))))))))))))))))))))))))))))))))))))))
+  in
+  (Npos (XO (XO (XO (XO (XO (XO (XO
+  XH)))))))) :: (app (repeat N0 zeros0)
+                  (be_bytes (S (S (S (S (S (S (S (S O))))))))
+                    (N.mul (Npos (XO (XO (XO XH)))) (N.of_nat len0))))
+
+(** val sha256 : n list -> n list **)
+
+let sha256 msg =
+  let len0 = length msg in
+  let ws = words_of_bytes (app msg (pad len0)) in
+  let h =
+    blocks (S
+      (add
+        (div len0 (S (S (S (S (S (S (S (S (S (S (S (S (S (S (S (S (S (S (S (S
+          (S (S (S (S (S (S (S (S (S (S (S (S (S (S (S (S (S (S (S (S (S (S
+          (S (S (S (S (S (S (S (S (S (S (S (S (S (S (S (S (S (S (S (S (S (S
+          O)))))))))))))))))))))))))))))))))))))))))))))))))))))))))))))))))
+        (S (S O)))) h0 ws
+  in
+  flat_map (be_bytes (S (S (S (S O))))) h
+
+(** val crc_poly : n **)
+
+let crc_poly =
+  Npos (XO (XO (XO (XI (XI (XI (XI (XO (XI (XI (XO (XI (XI (XI (XO (XO (XO
+    (XI (XI (XO (XI (XI (XI (XI (XO (XI (XO (XO (XO (XO (XO
+    XH)))))))))))))))))))))))))))))))
+
+(** val crc_bits : nat -> n -> n **)
+
+let rec crc_bits n0 c =
+  match n0 with
+  | O -> c
+  | S n' ->
+    let c' =
+      if N.odd c
+      then N.coq_lxor (N.shiftr c (Npos XH)) crc_poly
+      else N.shiftr c (Npos XH)
+    in
+    crc_bits n' c'
+
+(** val crc_byte : n -> n -> n **)
+
+let crc_byte c b =
+  crc_bits (S (S (S (S (S (S (S (S O)))))))) (N.coq_lxor c b)
+
+(** val crc32c : n list -> n **)
+
+let crc32c l =
+  N.coq_lxor
+    (fold_left crc_byte l (Npos (XI (XI (XI (XI (XI (XI (XI (XI (XI (XI (XI
+      (XI (XI (XI (XI (XI (XI (XI (XI (XI (XI (XI (XI (XI (XI (XI (XI (XI (XI
+      (XI (XI XH))))))))))))))))))))))))))))))))) (Npos (XI (XI (XI (XI (XI
+    (XI (XI (XI (XI (XI (XI (XI (XI (XI (XI (XI (XI (XI (XI (XI (XI (XI (XI
+    (XI (XI (XI (XI (XI (XI (XI (XI XH))))))))))))))))))))))))))))))))
+
+type bytes = n list
+
+type node = { n_special : bool; n_type : n; n_mask : n; n_bits : bits;
+              n_refs : nat list }
+
+(** val take_drop : nat -> bytes -> (bytes * bytes) res **)
+
+let take_drop n0 l =
+  if short n0 l then Panic pSlice else Ok ((firstn n0 l), (skipn n0 l))
+
+(** val two0 : n **)
+
+let two0 =
+  Npos (XO (XO (XO (XO (XO (XO (XO (XO (XO (XO (XO (XO (XO (XO (XO (XO (XO
+    (XO (XO (XO (XO (XO (XO (XO (XO (XO (XO (XO (XO (XO (XO (XO (XO (XO (XO
+    (XO (XO (XO (XO (XO (XO (XO (XO (XO (XO (XO (XO (XO (XO (XO (XO (XO (XO
+    (XO (XO (XO (XO (XO (XO (XO (XO (XO (XO (XO
+    XH))))))))))))))))))))))))))))))))))))))))))))))))))))))))))))))))
+
+(** val read_be : nat -> bytes -> n res **)
+
+let read_be n0 l =
+  if short n0 l
+  then Panic pIndex
+  else Ok
+         (fold_left (fun acc b ->
+           N.modulo
+             (N.add
+               (N.mul acc (Npos (XO (XO (XO (XO (XO (XO (XO (XO XH))))))))))
+               b) two0) (firstn n0 l) N0)
+
+(** val read_be_drop : nat -> bytes -> (n * bytes) res **)
+
+let read_be_drop n0 l =
+  bind (read_be n0 l) (fun v -> Ok (v, (skipn n0 l)))
+
+type header = { h_idx : bool; h_crc : bool; h_cache : bool; h_size : 
+                nat; h_cells : n; h_roots : n; h_absent : n; h_tot : 
+                n; h_rootlist : n list; h_index : n list; h_data : bytes;
+                h_alloc : n }
+
+(** val magic_reach : bytes **)
+
+let magic_reach =
+  (Npos (XI (XO (XI (XO (XI (XI (XO XH)))))))) :: ((Npos (XO (XI (XI (XI (XO
+    (XI (XI XH)))))))) :: ((Npos (XO (XO (XI (XI (XI (XO (XO
+    XH)))))))) :: ((Npos (XO (XI (XO (XO (XI (XI XH))))))) :: [])))
+
+(** val magic_lean : bytes **)
+
+let magic_lean =
+  (Npos (XO (XO (XO (XI (XO (XI XH))))))) :: ((Npos (XI (XI (XI (XI (XI (XI
+    (XI XH)))))))) :: ((Npos (XI (XO (XI (XO (XO (XI XH))))))) :: ((Npos (XI
+    (XI (XO (XO (XI (XI (XI XH)))))))) :: [])))
+
+(** val magic_lean_crc : bytes **)
+
+let magic_lean_crc =
+  (Npos (XO (XO (XI (XI (XO (XI (XO XH)))))))) :: ((Npos (XI (XI (XO (XO (XO
+    (XO (XI XH)))))))) :: ((Npos (XI (XI (XI (XO (XO (XI (XO
+    XH)))))))) :: ((Npos (XO (XO (XO (XI (XO XH)))))) :: [])))
+
+(** val bytes_eqb : bytes -> bytes -> bool **)
+
+let bytes_eqb a b =
+  (&&) (Nat.eqb (length a) (length b))
+    (forallb (fun p -> N.eqb (fst p) (snd p)) (combine a b))
+
+(** val read_list :
+    nat -> nat -> bool -> bytes -> n list -> (n list * bytes) res **)
+
+let rec read_list k0 w halve l acc =
+  match k0 with
+  | O -> Ok ((rev acc), l)
+  | S k' ->
+    bind (read_be_drop w l) (fun vr ->
+      let (v, l') = vr in
+      read_list k' w halve l'
+        ((if halve then N.div v (Npos (XO XH)) else v) :: acc))
+
+(** val le32 : bytes -> n **)
+
+let le32 = function
+| [] -> N0
+| a :: l0 ->
+  (match l0 with
+   | [] -> N0
+   | b :: l1 ->
+     (match l1 with
+      | [] -> N0
+      | c :: l2 ->
+        (match l2 with
+         | [] -> N0
+         | d :: _ ->
+           N.add
+             (N.add
+               (N.add a
+                 (N.mul (Npos (XO (XO (XO (XO (XO (XO (XO (XO XH))))))))) b))
+               (N.mul (Npos (XO (XO (XO (XO (XO (XO (XO (XO (XO (XO (XO (XO
+                 (XO (XO (XO (XO XH))))))))))))))))) c))
+             (N.mul (Npos (XO (XO (XO (XO (XO (XO (XO (XO (XO (XO (XO (XO (XO
+               (XO (XO (XO (XO (XO (XO (XO (XO (XO (XO (XO
+               XH))))))))))))))))))))))))) d))))
+
+(** val eParse : n **)
+
+let eParse =
+  Npos (XO (XO (XI (XO XH))))
+
+(** val parse_header : bytes -> header res **)
+
+let parse_header boc =
+  if short (S (S (S (S (S O))))) boc
+  then Err eParse
+  else let n0 = length boc in
+       bind (take_drop (S (S (S (S O)))) boc) (fun pr ->
+         let (prefix, boc0) = pr in
+         (match boc0 with
+          | [] -> Panic pIndex
+          | fb :: boc1 ->
+            let cfg =
+              if bytes_eqb prefix magic_reach
+              then Some ((((N.testbit fb (Npos (XI (XI XH)))),
+                     (N.testbit fb (Npos (XO (XI XH))))),
+                     (N.testbit fb (Npos (XI (XO XH))))),
+                     (N.to_nat (N.modulo fb (Npos (XO (XO (XO XH)))))))
+              else if bytes_eqb prefix magic_lean
+                   then Some (((true, false), false), (N.to_nat fb))
+                   else if bytes_eqb prefix magic_lean_crc
+                        then Some (((true, true), false), (N.to_nat fb))
+                        else None
+            in
+            (match cfg with
+             | Some p ->
+               let (p0, size0) = p in
+               let (p1, hasCache) = p0 in
+               let (hasIdx, hasCrc) = p1 in
+               if short (add (S O) (mul (S (S (S (S (S O))))) size0)) boc1
+               then Err eParse
+               else (match boc1 with
+                     | [] -> Panic pIndex
+                     | ob :: boc2 ->
+                       let off = N.to_nat ob in
+                       bind (read_be_drop size0 boc2) (fun r1 ->
+                         let (cells, b3) = r1 in
+                         bind (read_be_drop size0 b3) (fun r2 ->
+                           let (roots, b4) = r2 in
+                           bind (read_be_drop size0 b4) (fun r3 ->
+                             let (absent, b5) = r3 in
+                             if short off b5
+                             then Err eParse
+                             else bind (read_be_drop off b5) (fun r4 ->
+                                    let (tot, b6) = r4 in
+                                    let rem = N.of_nat (length b6) in
+                                    if (||) (N.ltb rem roots)
+                                         (N.ltb rem
+                                           (N.mul roots (N.of_nat size0)))
+                                    then Err eParse
+                                    else if N.ltb rem cells
+                                         then Err eParse
+                                         else bind
+                                                (read_list (N.to_nat roots)
+                                                  size0 false b6 [])
+                                                (fun rl ->
+                                                let (rootlist, b7) = rl in
+                                                bind
+                                                  (if hasIdx
+                                                   then if N.ltb
+                                                             (N.of_nat
+                                                               (length b7))
+                                                             (N.mul
+                                                               (N.of_nat off)
+                                                               cells)
+                                                        then Err eParse
+                                                        else read_list
+                                                               (N.to_nat
+                                                                 cells) off
+                                                               hasCache b7 []
+                                                   else Ok ([], b7))
+                                                  (fun ix ->
+                                                  let (index, b8) = ix in
+                                                  if N.ltb
+                                                       (N.of_nat (length b8))
+                                                       tot
+                                                  then Err eParse
+                                                  else bind
+                                                         (take_drop
+                                                           (N.to_nat tot) b8)
+                                                         (fun cd ->
+                                                         let (data, b9) = cd
+                                                         in
+                                                         bind
+                                                           (if hasCrc
+                                                            then if short (S
+                                                                    (S (S (S
+                                                                    O)))) b9
+                                                                 then 
+                                                                   Err eParse
+                                                                 else 
+                                                                   if 
+                                                                    negb
+                                                                    (N.eqb
+                                                                    (le32 b9)
+                                                                    (crc32c
+                                                                    (firstn
+                                                                    (sub n0
+                                                                    (S (S (S
+                                                                    (S O)))))
+                                                                    (app
+                                                                    prefix
+                                                                    (fb :: boc1)))))
+                                                                   then 
+                                                                    Err eParse
+                                                                   else 
+                                                                    Ok
+                                                                    (skipn (S
+                                                                    (S (S (S
+                                                                    O)))) b9)
+                                                            else Ok b9)
+                                                           (fun b10 ->
+                                                           match b10 with
+                                                           | [] ->
+                                                             Ok { h_idx =
+                                                               hasIdx;
+                                                               h_crc =
+                                                               hasCrc;
+                                                               h_cache =
+                                                               hasCache;
+                                                               h_size =
+                                                               size0;
+                                                               h_cells =
+                                                               cells;
+                                                               h_roots =
+                                                               roots;
+                                                               h_absent =
+                                                               absent;
+                                                               h_tot = tot;
+                                                               h_rootlist =
+                                                               rootlist;
+                                                               h_index =
+                                                               index;
+                                                               h_data = data;
+                                                               h_alloc =
+                                                               (N.add
+                                                                 (N.mul (Npos
+                                                                   (XO (XO
+                                                                   (XO XH))))
+                                                                   roots)
+                                                                 (N.mul (Npos
+                                                                   (XO (XO
+                                                                   (XO XH))))
+                                                                   cells)) }
+                                                           | _ :: _ ->
+                                                             Err eParse)))))))))
+             | None -> Err eParse)))
+
+(** val popcount3 : n -> nat **)
+
+let popcount3 m =
+  add
+    (add (if N.testbit m N0 then S O else O)
+      (if N.testbit m (Npos XH) then S O else O))
+    (if N.testbit m (Npos (XO XH)) then S O else O)
+
+(** val strip_go : nat -> bits -> bits option **)
+
+let rec strip_go k0 r =
+  match k0 with
+  | O -> None
+  | S k' ->
+    (match r with
+     | [] -> None
+     | b :: rest -> if b then Some (rev rest) else strip_go k' rest)
+
+(** val strip_completion : bits -> bits option **)
+
+let strip_completion l =
+  strip_go (S (S (S (S (S (S (S O))))))) (rev l)
+
+(** val bytes_bits0 : bytes -> bits **)
+
+let rec bytes_bits0 = function
+| [] -> []
+| b :: t -> app (bits_of (S (S (S (S (S (S (S (S O)))))))) b) (bytes_bits0 t)
+
+(** val top_upped_bits : bytes -> bool -> bits res **)
+
+let top_upped_bits data fulfilled =
+  let all = bytes_bits0 data in
+  if (||) fulfilled (Nat.eqb (length data) O)
+  then Ok all
+  else (match strip_completion all with
+        | Some b -> Ok b
+        | None -> Err eParse)
+
+type rnode = { rn_special : bool; rn_type : n; rn_mask : n; rn_bits : 
+               bits; rn_refs : n list }
+
+(** val read_refs : nat -> nat -> bytes -> n list -> (n list * bytes) res **)
+
+let rec read_refs k0 w l acc =
+  match k0 with
+  | O -> Ok ((rev acc), l)
+  | S k' ->
+    bind (read_be_drop w l) (fun vr ->
+      let (v, l') = vr in read_refs k' w l' (v :: acc))
+
+(** val parse_cell : bytes -> nat -> (rnode * bytes) res **)
+
+let parse_cell cd refsz =
+  match cd with
+  | [] -> Err eParse
+  | d1 :: l ->
+    (match l with
+     | [] -> Err eParse
+     | d2 :: cd1 ->
+       let isExotic = N.testbit d1 (Npos (XI XH)) in
+       let refNum = N.to_nat (N.modulo d1 (Npos (XO (XO (XO XH))))) in
+       let dataBytes =
+         N.to_nat
+           (N.add (N.div d2 (Npos (XO XH))) (N.modulo d2 (Npos (XO XH))))
+       in
+       let fulfilled = N.eqb (N.modulo d2 (Npos (XO XH))) N0 in
+       let withHashes = N.testbit d1 (Npos (XO (XO XH))) in
+       let mask0 = N.div d1 (Npos (XO (XO (XO (XO (XO XH)))))) in
+       bind
+         (if withHashes
+          then let offset =
+                 mul (add (popcount3 mask0) (S O)) (S (S (S (S (S (S (S (S (S
+                   (S (S (S (S (S (S (S (S (S (S (S (S (S (S (S (S (S (S (S
+                   (S (S (S (S (S (S O))))))))))))))))))))))))))))))))))
+               in
+               if short offset cd1 then Err eParse else Ok (skipn offset cd1)
+          else Ok cd1) (fun cd2 ->
+         if short (add dataBytes (mul refsz refNum)) cd2
+         then Err eParse
+         else bind
+                (if isExotic
+                 then if Nat.ltb dataBytes (S O)
+                      then Err eParse
+                      else (match cd2 with
+                            | [] -> Panic pIndex
+                            | t :: _ -> Ok t)
+                 else Ok N0) (fun ty ->
+                bind (take_drop dataBytes cd2) (fun dr ->
+                  let (data, cd3) = dr in
+                  bind (top_upped_bits data fulfilled) (fun b ->
+                    bind (read_refs refNum refsz cd3 []) (fun rr ->
+                      let (refs, cd4) = rr in
+                      Ok ({ rn_special =
+                      ((&&) isExotic (negb (N.eqb ty N0))); rn_type = ty;
+                      rn_mask = mask0; rn_bits = b; rn_refs = refs }, cd4)))))))
+
+(** val parse_cells : nat -> nat -> bytes -> rnode list -> rnode list res **)
+
+let rec parse_cells k0 refsz cd acc =
+  match k0 with
+  | O -> Ok (rev acc)
+  | S k' ->
+    bind (parse_cell cd refsz) (fun cr ->
+      let (c, cd') = cr in parse_cells k' refsz cd' (c :: acc))
+
+(** val refs_ok : n -> n -> n list -> bool **)
+
+let refs_ok n0 i refs =
+  (&&) (Nat.leb (length refs) (S (S (S (S O)))))
+    (forallb (fun r -> (&&) (N.ltb i r) (N.ltb r n0)) refs)
+
+(** val check_refs : n -> n -> rnode list -> bool **)
+
+let rec check_refs n0 i = function
+| [] -> true
+| c :: t -> (&&) (refs_ok n0 i c.rn_refs) (check_refs n0 (N.succ i) t)
+
+(** val node_of : rnode -> node **)
+
+let node_of c =
+  { n_special = c.rn_special; n_type = c.rn_type; n_mask = c.rn_mask;
+    n_bits = c.rn_bits; n_refs = (map N.to_nat c.rn_refs) }
+
+type parsed = { p_cells : node list; p_roots : nat list; p_alloc : n }
+
+(** val cell_alloc : n **)
+
+let cell_alloc =
+  Npos (XO (XO (XO (XI (XI (XO (XI (XO (XO XH)))))))))
+
+(** val parse_boc : bytes -> parsed res **)
+
+let parse_boc boc =
+  bind (parse_header boc) (fun h ->
+    bind (parse_cells (N.to_nat h.h_cells) h.h_size h.h_data [])
+      (fun cells ->
+      let n0 = N.of_nat (length cells) in
+      if negb (check_refs n0 N0 cells)
+      then Err eParse
+      else if negb (forallb (fun r -> N.ltb r n0) h.h_rootlist)
+           then Err eParse
+           else Ok { p_cells = (map node_of cells); p_roots =
+                  (map N.to_nat h.h_rootlist); p_alloc =
+                  (N.add
+                    (N.add
+                      (N.add h.h_alloc
+                        (N.mul (Npos (XO (XO (XO (XO XH))))) h.h_cells))
+                      (N.mul cell_alloc h.h_cells))
+                    (N.mul (Npos (XO (XO (XO XH))))
+                      (N.of_nat (length h.h_rootlist)))) }))
+
+(** val t_PRUNED : n **)
+
+let t_PRUNED =
+  Npos XH
+
+(** val t_MPROOF : n **)
+
+let t_MPROOF =
+  Npos (XI XH)
+
+(** val t_MUPDATE : n **)
+
+let t_MUPDATE =
+  Npos (XO (XO XH))
+
+(** val eDepth : n **)
+
+let eDepth =
+  Npos (XI (XO (XI (XO XH))))
+
+(** val mask_level : n -> nat **)
+
+let mask_level m =
+  N.to_nat (N.size m)
+
+(** val mask_popcount : n -> nat **)
+
+let mask_popcount =
+  popcount3
+
+(** val mask_apply : n -> nat -> n **)
+
+let mask_apply m level =
+  N.coq_land m (N.sub (N.pow (Npos (XO XH)) (N.of_nat level)) (Npos XH))
+
+(** val mask_significant : n -> nat -> bool **)
+
+let mask_significant m = function
+| O -> true
+| S l -> N.testbit m (N.of_nat l)
+
+type imm = { im_special : bool; im_type : n; im_mask : n; im_bits : bits;
+             im_nrefs : nat; im_hashes : bytes list; im_depths : n list }
+
+(** val is_pruned : bool -> n -> bool **)
+
+let is_pruned special ty =
+  (&&) special (N.eqb ty t_PRUNED)
+
+(** val is_merkle : bool -> n -> bool **)
+
+let is_merkle special ty =
+  (&&) special ((||) (N.eqb ty t_MPROOF) (N.eqb ty t_MUPDATE))
+
+(** val bits_bytes : nat -> bits -> bytes **)
+
+let rec bits_bytes n0 l =
+  match n0 with
+  | O -> []
+  | S n' ->
+    (n_of_bits
+      (firstn (S (S (S (S (S (S (S (S O))))))))
+        (app l (zeros (S (S (S (S (S (S (S (S O)))))))))))) :: (bits_bytes n'
+                                                                 (skipn (S (S
+                                                                   (S (S (S
+                                                                   (S (S (S
+                                                                   O))))))))
+                                                                   l))
+
+(** val buf_bytes : bits -> bytes **)
+
+let buf_bytes l =
+  bits_bytes (S (S (S (S (S (S (S (S (S (S (S (S (S (S (S (S (S (S (S (S (S
+    (S (S (S (S (S (S (S (S (S (S (S (S (S (S (S (S (S (S (S (S (S (S (S (S
+    (S (S (S (S (S (S (S (S (S (S (S (S (S (S (S (S (S (S (S (S (S (S (S (S
+    (S (S (S (S (S (S (S (S (S (S (S (S (S (S (S (S (S (S (S (S (S (S (S (S
+    (S (S (S (S (S (S (S (S (S (S (S (S (S (S (S (S (S (S (S (S (S (S (S (S
+    (S (S (S (S (S (S (S (S (S (S (S
+    O))))))))))))))))))))))))))))))))))))))))))))))))))))))))))))))))))))))))))))))))))))))))))))))))))))))))))))))))))))))))))))))))
+    l
+
+(** val imm_hash : imm -> nat -> bytes res **)
+
+let imm_hash c level =
+  let index = mask_popcount (mask_apply c.im_mask level) in
+  if is_pruned c.im_special c.im_type
+  then let offset = mask_popcount c.im_mask in
+       if negb (Nat.eqb index offset)
+       then Ok
+              (firstn (S (S (S (S (S (S (S (S (S (S (S (S (S (S (S (S (S (S
+                (S (S (S (S (S (S (S (S (S (S (S (S (S (S
+                O))))))))))))))))))))))))))))))))
+                (skipn
+                  (add (S (S O))
+                    (mul index (S (S (S (S (S (S (S (S (S (S (S (S (S (S (S
+                      (S (S (S (S (S (S (S (S (S (S (S (S (S (S (S (S (S
+                      O))))))))))))))))))))))))))))))))))
+                  (buf_bytes c.im_bits)))
+       else (match nth_error c.im_hashes O with
+             | Some h -> Ok h
+             | None -> Panic pIndex)
+  else (match nth_error c.im_hashes index with
+        | Some h -> Ok h
+        | None -> Panic pIndex)
+
+(** val imm_depth : imm -> nat -> n res **)
+
+let imm_depth c level =
+  let index = mask_popcount (mask_apply c.im_mask level) in
+  if is_pruned c.im_special c.im_type
+  then let offset = mask_popcount c.im_mask in
+       if negb (Nat.eqb index offset)
+       then (match skipn
+                     (add
+                       (add (S (S O))
+                         (mul (S (S (S (S (S (S (S (S (S (S (S (S (S (S (S (S
+                           (S (S (S (S (S (S (S (S (S (S (S (S (S (S (S (S
+                           O)))))))))))))))))))))))))))))))) offset))
+                       (mul index (S (S O)))) (buf_bytes c.im_bits) with
+             | [] -> Panic pIndex
+             | a :: l ->
+               (match l with
+                | [] -> Panic pIndex
+                | b :: _ ->
+                  Ok
+                    (N.add
+                      (N.mul a (Npos (XO (XO (XO (XO (XO (XO (XO (XO
+                        XH)))))))))) b)))
+       else (match nth_error c.im_depths O with
+             | Some d -> Ok d
+             | None -> Panic pIndex)
+  else (match nth_error c.im_depths index with
+        | Some d -> Ok d
+        | None -> Panic pIndex)
+
+(** val d1_byte : nat -> bool -> n -> n **)
+
+let d1_byte nrefs special mask0 =
+  N.modulo
+    (N.add
+      (N.add (N.of_nat nrefs)
+        (if special then Npos (XO (XO (XO XH))) else N0))
+      (N.mul (Npos (XO (XO (XO (XO (XO XH)))))) mask0)) (Npos (XO (XO (XO (XO
+    (XO (XO (XO (XO XH)))))))))
+
+(** val d2_byte : nat -> n **)
+
+let d2_byte nbits =
+  N.of_nat
+    (add
+      (Nat.div (add nbits (S (S (S (S (S (S (S O)))))))) (S (S (S (S (S (S (S
+        (S O))))))))) (Nat.div nbits (S (S (S (S (S (S (S (S O))))))))))
+
+(** val data_with_tag : bits -> bytes **)
+
+let data_with_tag l =
+  let n0 = length l in
+  if Nat.eqb (Nat.modulo n0 (S (S (S (S (S (S (S (S O))))))))) O
+  then bits_bytes (Nat.div n0 (S (S (S (S (S (S (S (S O))))))))) l
+  else bits_bytes
+         (Nat.div (add n0 (S (S (S (S (S (S (S O)))))))) (S (S (S (S (S (S (S
+           (S O))))))))) (app l (true :: []))
+
+(** val repr_no_refs : nat -> bool -> n -> bits -> bytes **)
+
+let repr_no_refs nrefs special mask0 l =
+  (d1_byte nrefs special mask0) :: ((d2_byte (length l)) :: (data_with_tag l))
+
+(** val be16 : n -> bytes **)
+
+let be16 d =
+  (N.modulo (N.div d (Npos (XO (XO (XO (XO (XO (XO (XO (XO XH)))))))))) (Npos
+    (XO (XO (XO (XO (XO (XO (XO (XO XH)))))))))) :: ((N.modulo d (Npos (XO
+                                                       (XO (XO (XO (XO (XO
+                                                       (XO (XO XH)))))))))) :: [])
+
+(** val mapM : ('a1 -> 'a2 res) -> 'a1 list -> 'a2 list res **)
+
+let rec mapM f = function
+| [] -> Ok []
+| a :: t -> bind (f a) (fun b -> bind (mapM f t) (fun bs0 -> Ok (b :: bs0)))
+
+(** val build_loop :
+    (bytes -> bytes) -> bool -> n -> n -> bits -> imm list -> nat list -> nat
+    -> bytes list -> n list -> (bytes list * n list) res **)
+
+let rec build_loop h special ty mask0 l refs levels seen hashes depths =
+  match levels with
+  | [] -> Ok (hashes, depths)
+  | i :: rest ->
+    if negb (mask_significant mask0 i)
+    then build_loop h special ty mask0 l refs rest seen hashes depths
+    else let offset = if is_pruned special ty then mask_popcount mask0 else O
+         in
+         if Nat.ltb seen offset
+         then build_loop h special ty mask0 l refs rest (S seen) hashes depths
+         else bind
+                (if Nat.eqb seen offset
+                 then Ok
+                        (repr_no_refs (length refs) special
+                          (mask_apply mask0 i) l)
+                 else (match nth_error hashes (sub (sub seen offset) (S O)) with
+                       | Some h1 ->
+                         Ok
+                           ((d1_byte (length refs) special
+                              (mask_apply mask0 i)) :: ((d2_byte (length l)) :: h1))
+                       | None -> Panic pIndex)) (fun head ->
+                let child = if is_merkle special ty then S i else i in
+                bind (mapM (fun r -> imm_depth r child) refs) (fun cdepths ->
+                  let maxd = fold_left N.max cdepths N0 in
+                  if (&&) (negb (Nat.eqb (length refs) O))
+                       (N.leb (Npos (XO (XO (XO (XO (XO (XO (XO (XO (XO (XO
+                         XH))))))))))) maxd)
+                  then Err eDepth
+                  else let depth =
+                         if Nat.eqb (length refs) O
+                         then N0
+                         else N.add maxd (Npos XH)
+                       in
+                       bind (mapM (fun r -> imm_hash r child) refs)
+                         (fun chashes ->
+                         let h1 =
+                           h
+                             (app head
+                               (app (flat_map be16 cdepths) (concat chashes)))
+                         in
+                         build_loop h special ty mask0 l refs rest (S seen)
+                           (app hashes (h1 :: [])) (app depths (depth :: [])))))
+
+(** val build_imm :
+    (bytes -> bytes) -> bool -> n -> n -> bits -> imm list -> imm res **)
+
+let build_imm h special ty mask0 l refs =
+  bind
+    (build_loop h special ty mask0 l refs (seq O (S (mask_level mask0))) O []
+      []) (fun hd ->
+    let (hs, ds) = hd in
+    Ok { im_special = special; im_type = ty; im_mask = mask0; im_bits = l;
+    im_nrefs = (length refs); im_hashes = hs; im_depths = ds })
+
+(** val lookup_refs : imm res list -> nat -> nat list -> imm list res **)
+
+let rec lookup_refs done0 base = function
+| [] -> Ok []
+| r :: t ->
+  (match nth_error done0 (sub r base) with
+   | Some rc ->
+     bind rc (fun c ->
+       bind (lookup_refs done0 base t) (fun cs -> Ok (c :: cs)))
+   | None -> Panic pNil)
+
+(** val eval_dag : (bytes -> bytes) -> nat -> node list -> imm res list **)
+
+let rec eval_dag h i = function
+| [] -> []
+| c :: rest ->
+  let done0 = eval_dag h (S i) rest in
+  let im =
+    bind (lookup_refs done0 (S i) c.n_refs) (fun refs ->
+      build_imm h c.n_special c.n_type c.n_mask c.n_bits refs)
+  in
+  im :: done0
+
+(** val cell_hash : imm -> bytes res **)
+
+let cell_hash c =
+  imm_hash c (S (S (S O)))
+
+(** val cell_depth : imm -> n res **)
+
+let cell_depth c =
+  imm_depth c (S (S (S O)))
+
+(** val sx_res : ('a1 -> sx) -> 'a1 res -> sx **)
+
+let sx_res f = function
+| Ok a -> f a
+| Err _ ->
+  SA (String ((Ascii (true, false, true, false, false, true, true, false)),
+    (String ((Ascii (false, true, false, false, true, true, true, false)),
+    (String ((Ascii (false, true, false, false, true, true, true, false)),
+    EmptyString))))))
+| Panic _ ->
+  SA (String ((Ascii (false, false, false, false, true, true, true, false)),
+    (String ((Ascii (true, false, false, false, false, true, true, false)),
+    (String ((Ascii (false, true, true, true, false, true, true, false)),
+    (String ((Ascii (true, false, false, true, false, true, true, false)),
+    (String ((Ascii (true, true, false, false, false, true, true, false)),
+    EmptyString))))))))))
+
+(** val root_info : node list -> imm res list -> nat -> sx **)
+
+let root_info cells imms r =
+  match nth_error cells r with
+  | Some nd ->
+    (match nth_error imms r with
+     | Some ri ->
+       SL
+         ((sx_res (fun x -> SBytes x) (bind ri cell_hash)) :: ((sx_res
+                                                                 (fun x -> SN
+                                                                 x)
+                                                                 (bind ri
+                                                                   cell_depth)) :: (
+         (sx_nat (mask_level nd.n_mask)) :: ((sx_nat (length nd.n_bits)) :: (
+         (sx_nat (length nd.n_refs)) :: ((SB nd.n_special) :: ((SN
+         nd.n_type) :: [])))))))
+     | None ->
+       sx_err (String ((Ascii (false, true, false, false, true, true, true,
+         false)), (String ((Ascii (true, true, true, true, false, true, true,
+         false)), (String ((Ascii (true, true, true, true, false, true, true,
+         false)), (String ((Ascii (false, false, true, false, true, true,
+         true, false)), (String ((Ascii (false, false, false, false, false,
+         true, false, false)), (String ((Ascii (true, false, false, true,
+         false, true, true, false)), (String ((Ascii (false, true, true,
+         true, false, true, true, false)), (String ((Ascii (false, false,
+         true, false, false, true, true, false)), (String ((Ascii (true,
+         false, true, false, false, true, true, false)), (String ((Ascii
+         (false, false, false, true, true, true, true, false)),
+         EmptyString)))))))))))))))))))))
+  | None ->
+    sx_err (String ((Ascii (false, true, false, false, true, true, true,
+      false)), (String ((Ascii (true, true, true, true, false, true, true,
+      false)), (String ((Ascii (true, true, true, true, false, true, true,
+      false)), (String ((Ascii (false, false, true, false, true, true, true,
+      false)), (String ((Ascii (false, false, false, false, false, true,
+      false, false)), (String ((Ascii (true, false, false, true, false, true,
+      true, false)), (String ((Ascii (false, true, true, true, false, true,
+      true, false)), (String ((Ascii (false, false, true, false, false, true,
+      true, false)), (String ((Ascii (true, false, true, false, false, true,
+      true, false)), (String ((Ascii (false, false, false, true, true, true,
+      true, false)), EmptyString))))))))))))))))))))
+
+(** val run_parse : sx -> sx **)
+
+let run_parse = function
+| SBytes bs0 ->
+  (match parse_boc bs0 with
+   | Ok p ->
+     let imms = eval_dag sha256 O p.p_cells in
+     SL (map (root_info p.p_cells imms) p.p_roots)
+   | Err _ ->
+     SA (String ((Ascii (true, false, true, false, false, true, true,
+       false)), (String ((Ascii (false, true, false, false, true, true, true,
+       false)), (String ((Ascii (false, true, false, false, true, true, true,
+       false)), EmptyString))))))
+   | Panic _ ->
+     SA (String ((Ascii (false, false, false, false, true, true, true,
+       false)), (String ((Ascii (true, false, false, false, false, true,
+       true, false)), (String ((Ascii (false, true, true, true, false, true,
+       true, false)), (String ((Ascii (true, false, false, true, false, true,
+       true, false)), (String ((Ascii (true, true, false, false, false, true,
+       true, false)), EmptyString)))))))))))
+| _ ->
+  sx_err (String ((Ascii (false, false, false, false, true, true, true,
+    false)), (String ((Ascii (true, false, false, false, false, true, true,
+    false)), (String ((Ascii (false, true, false, false, true, true, true,
+    false)), (String ((Ascii (true, true, false, false, true, true, true,
+    false)), (String ((Ascii (true, false, true, false, false, true, true,
+    false)), EmptyString))))))))))
+
 (** val run : string -> sx -> sx **)
 
 let run name a =
@@ -2725,28 +4196,46 @@ let run name a =
                       false, false, true, true, true, false)),
                       EmptyString))))))))))))))))))))))
                  then run_minbits a
-                 else sx_err (String ((Ascii (true, false, true, false, true,
-                        true, true, false)), (String ((Ascii (false, true,
-                        true, true, false, true, true, false)), (String
-                        ((Ascii (true, true, false, true, false, true, true,
-                        false)), (String ((Ascii (false, true, true, true,
-                        false, true, true, false)), (String ((Ascii (true,
-                        true, true, true, false, true, true, false)), (String
-                        ((Ascii (true, true, true, false, true, true, true,
-                        false)), (String ((Ascii (false, true, true, true,
-                        false, true, true, false)), (String ((Ascii (false,
-                        false, false, false, false, true, false, false)),
-                        (String ((Ascii (true, true, false, false, false,
-                        true, true, false)), (String ((Ascii (true, false,
-                        false, false, false, true, true, false)), (String
-                        ((Ascii (true, true, false, false, true, true, true,
-                        false)), (String ((Ascii (true, false, true, false,
-                        false, true, true, false)), (String ((Ascii (false,
-                        false, false, false, false, true, false, false)),
-                        (String ((Ascii (true, true, false, true, false,
-                        true, true, false)), (String ((Ascii (true, false,
-                        false, true, false, true, true, false)), (String
-                        ((Ascii (false, true, true, true, false, true, true,
-                        false)), (String ((Ascii (false, false, true, false,
-                        false, true, true, false)),
-                        EmptyString))))))))))))))))))))))))))))))))))
+                 else if is (String ((Ascii (true, true, false, false, false,
+                           true, true, false)), (String ((Ascii (false,
+                           false, false, false, true, true, false, false)),
+                           (String ((Ascii (true, true, true, false, true,
+                           true, false, false)), (String ((Ascii (false,
+                           true, true, true, false, true, false, false)),
+                           (String ((Ascii (false, false, false, false, true,
+                           true, true, false)), (String ((Ascii (true, false,
+                           false, false, false, true, true, false)), (String
+                           ((Ascii (false, true, false, false, true, true,
+                           true, false)), (String ((Ascii (true, true, false,
+                           false, true, true, true, false)), (String ((Ascii
+                           (true, false, true, false, false, true, true,
+                           false)), EmptyString))))))))))))))))))
+                      then run_parse a
+                      else sx_err (String ((Ascii (true, false, true, false,
+                             true, true, true, false)), (String ((Ascii
+                             (false, true, true, true, false, true, true,
+                             false)), (String ((Ascii (true, true, false,
+                             true, false, true, true, false)), (String
+                             ((Ascii (false, true, true, true, false, true,
+                             true, false)), (String ((Ascii (true, true,
+                             true, true, false, true, true, false)), (String
+                             ((Ascii (true, true, true, false, true, true,
+                             true, false)), (String ((Ascii (false, true,
+                             true, true, false, true, true, false)), (String
+                             ((Ascii (false, false, false, false, false,
+                             true, false, false)), (String ((Ascii (true,
+                             true, false, false, false, true, true, false)),
+                             (String ((Ascii (true, false, false, false,
+                             false, true, true, false)), (String ((Ascii
+                             (true, true, false, false, true, true, true,
+                             false)), (String ((Ascii (true, false, true,
+                             false, false, true, true, false)), (String
+                             ((Ascii (false, false, false, false, false,
+                             true, false, false)), (String ((Ascii (true,
+                             true, false, true, false, true, true, false)),
+                             (String ((Ascii (true, false, false, true,
+                             false, true, true, false)), (String ((Ascii
+                             (false, true, true, true, false, true, true,
+                             false)), (String ((Ascii (false, false, true,
+                             false, false, true, true, false)),
+                             EmptyString))))))))))))))))))))))))))))))))))
